@@ -1376,6 +1376,13 @@ def make_swarm(rng, prop, run_cfg):
         sw["sbml_domain"] = True
     if prop == "C11":
         sw["restart_formats"] = [f for f in ["pickle", "dict", "json", "yaml"] if rng.random() < 0.7] or ["json"]
+        if rng.random() < 0.3:
+            # numbers that need 16-17 significant digits; only with the text formats (GLPK's own text format used by pickle/copy
+            # carries 15 digits - the stated numeric assumption of the other workloads)
+            sw["nonround"] = True
+            sw["restart_formats"] = [f for f in sw["restart_formats"] if f != "pickle"] or ["json"]
+            for k in ("copy", "deepcopy", "pickle", "merge"):
+                weights.pop(k, None)
     if not weights:
         weights = {"set_bounds": 1}
     sw["weights"] = weights
@@ -1461,6 +1468,8 @@ def gen_op(rng, H, sw):
     if k == "set_bounds":
         how = rng.choice(["bounds", "bounds", "lb", "ub"])
         lb, ub = rng.choice(BOUNDS), rng.choice(BOUNDS)
+        if sw.get("nonround"):
+            lb, ub = rng.choice([-100 / 3, -0.1 - 0.2, -1 / 7, 0]), rng.choice([0.1 + 0.2, 100 / 7, 2 / 3, 1e-3 / 3])
         if not inv and how == "bounds" and lb > ub:
             lb, ub = ub, lb
         op.update(r=rid(), how=how, lb=lb, ub=ub)
@@ -1516,11 +1525,14 @@ def gen_op(rng, H, sw):
             if which == "annotation":
                 key = rng.choice(["kegg.compound", "chebi", "ec-code", "sbo"])
                 val = {"kegg.compound": rng.choice(["C00001", ["C00002", "C00003"]]),
-                       "chebi": rng.choice(["CHEBI:17234", ["CHEBI:17234", "CHEBI:4167"], ["CHEBI:15377"]]),
-                       "ec-code": rng.choice(["1.1.1.1", ["2.7.1.1", "2.7.1.2"]]),
+                       "chebi": rng.choice(["CHEBI:17234", ["CHEBI:17234", "CHEBI:4167"], ["CHEBI:15377"], ["CHEBI:42758", "CHEBI:4275"]]),
+                       "ec-code": rng.choice(["1.1.1.1", ["2.7.1.1", "2.7.1.2"], ["2.7.1.11", "2.7.1.1"], ["1.1.1.1", "1.1.1.1"][:1]]),
                        "sbo": rng.choice(["SBO:0000176", "SBO:0000247"])}[key]
             else:
                 key, val = rng.choice(["note", "curator", "confidence"]), rng.choice(["plain text", "x", "3"])
+                if kind == "rxn" and rng.random() < 0.3:
+                    # what legacy imports leave behind; the rule itself is edited through the API later
+                    key, val = rng.choice(["GENE_ASSOCIATION", "GENE ASSOCIATION"]), rng.choice(["g0 and g1", "g2"])
             op.update(kind=kind, id=i, which=which, key=key, value=val)
         else:
             val = rng.choice(["v1", ["a", "b"]]) if which == "annotation" else rng.choice(["note", "other", ["n1"]])
@@ -1590,7 +1602,7 @@ def gen_op(rng, H, sw):
     elif k == "set_direction":
         op["dir"] = rng.choice(["max", "min", "maximize", "minimize", "Max", "MIN"] + (["sideways"] if inv else []))
     elif k == "set_obj_coef":
-        op.update(r=rid(), v=rng.choice([0, 1, -1, 2, 0.5]))
+        op.update(r=rid(), v=rng.choice([0, 1, -1, 2, 0.5] + ([1 / 3, 0.1 + 0.2] if sw.get("nonround") else [])))
     elif k == "add_cons":
         expr = [[r, rng.choice([1, -1, 2])] for r in sorted({rid() for _ in range(rng.randint(1, 2))})]
         lb, ub = sorted([rng.choice([-10, 0, 5, 1000]), rng.choice([-10, 0, 5, 1000])])
